@@ -50,7 +50,7 @@ def _datasets(case):
         N = case["N"]
         t = np.arange(N)[:, None]
         y = rng.normal(size=(N, n)) + 0.01 * t * rng.normal(size=(1, n)) + 3.0 * rng.normal(size=(1, n)) + np.sin(0.05 * t * (1 + np.arange(n))[None, :])
-        out.append(y)
+        out.append(y * float(case.get("scale", 1.0)))
     return out
 
 
@@ -145,6 +145,17 @@ def judge_history(case):
             j.check(all(np.array_equal(a, b) for a, b in zip(setup._initial_datasets, pristine)), f"{tag}-initial-copy", lambda: f"after step {step} ({opname}): stored initial copy modified")
         j.check(all(np.array_equal(a, b) for a, b in zip(user, pristine)), f"{tag}-user-arrays", lambda: f"after step {step} ({opname}): the arrays passed in by the user were modified")
 
+    first_alg = [None]
+
+    def _check_bound(alg, step):
+        if kind == "single":
+            j.check(_close(alg.data, cur[0]), f"{kind}-alg-data", lambda: f"step {step}: data bound to algorithm {alg.name} differs from the scipy pipeline")
+        else:
+            okd = isinstance(alg.data, list) and len(alg.data) == len(cur) and all(
+                _close(alg.data[i]["ref"], _split(d, list(r_))[0]) and _close(alg.data[i]["mov"], _split(d, list(r_))[1]) for i, (d, r_) in enumerate(zip(cur, refl)))
+            j.check(okd, f"{kind}-alg-data", lambda: f"step {step}: data bound to algorithm {alg.name} differs from split(scipy pipeline)")
+        j.check(abs(alg.fs - fs) <= 1e-12 * fs and abs(alg.dt - 1 / fs) <= 1e-12 / fs, f"{kind}-alg-fs", lambda: f"step {step}: algorithm {alg.name} fs={alg.fs!r} dt={alg.dt!r}, expected {fs!r}, {1/fs!r}")
+
     compare(0, "init")
     for step, op in enumerate(case["ops"], start=1):
         name = op["op"]
@@ -154,13 +165,17 @@ def judge_history(case):
             r = sut(setup.add_algorithms, alg)
             if not j.check(not raised(r), f"{kind}-add-raises", lambda: f"{r!r}"):
                 return j
-            if kind == "single":
-                j.check(_close(alg.data, cur[0]), f"{kind}-alg-data", lambda: f"step {step}: data bound to a new algorithm differs from the scipy pipeline")
+            targets = [alg]
+            if first_alg[0] is None:
+                first_alg[0] = alg
+                _ = (alg.fs, alg.dt)
             else:
-                okd = isinstance(alg.data, list) and len(alg.data) == len(cur) and all(
-                    _close(alg.data[i]["ref"], _split(d, list(r_))[0]) and _close(alg.data[i]["mov"], _split(d, list(r_))[1]) for i, (d, r_) in enumerate(zip(cur, refl)))
-                j.check(okd, f"{kind}-alg-data", lambda: f"step {step}: data bound to a new algorithm differs from split(scipy pipeline)")
-            j.check(abs(alg.fs - fs) <= 1e-12 * fs and abs(alg.dt - 1 / fs) <= 1e-12 / fs, f"{kind}-alg-fs", lambda: f"step {step}: algorithm fs={alg.fs!r} dt={alg.dt!r}, expected {fs!r}, {1/fs!r}")
+                # adding an algorithm that was added before re-binds it to the current data
+                r = sut(setup.add_algorithms, first_alg[0])
+                if j.check(not raised(r), f"{kind}-readd-raises", lambda: f"{r!r}"):
+                    targets.append(first_alg[0])
+            for alg in targets:
+                _check_bound(alg, step)
             continue
         if name == "rollback":
             if changed_since_start:
@@ -249,7 +264,8 @@ def op_strategy(draw):
 @st.composite
 def history_case(draw, kind, max_steps):
     ops = draw(st.lists(op_strategy(), min_size=1, max_size=max_steps))
-    c = {"kind": kind, "ops": ops, "seed": draw(st.integers(0, 2**32 - 1)), "N": draw(st.integers(300, 1200))}
+    c = {"kind": kind, "ops": ops, "seed": draw(st.integers(0, 2**32 - 1)), "N": draw(st.integers(300, 1200)),
+         "scale": draw(st.sampled_from([1.0, 1.0, 1e-3, 1e-6, 1e-10, 1e-12, 1e4]))}  # record level (e.g. m/s^2 vs micro-g)
     if kind == "single":
         c["chans"] = [draw(st.integers(2, 5))]
     else:
